@@ -326,6 +326,34 @@ def relative_index_designs():
             yield (f"relative/same-name/{'-'.join(str(widths[k]) for k in order)}", mk2(widths, order))
 
 
+def noconn_array_designs():
+    """no-connects - named and unnamed - on ports of instance arrays, instance pairs and plain instances, scalar and
+    bus-wide: every element's port ends on a net of its own"""
+    import hdl21 as h
+
+    def mk(target, named, width, n):
+        def b():
+            E = h.ExternalModule(name=f"NcE{width}", port_list=[h.Inout(name="inp"), h.Inout(name="out", width=width)], desc="", domain="cc")
+            m = h.Module(name="NcArr")
+            m.a = h.Signal()
+            nc = lambda k: h.NoConn(name=f"probe{k}") if named else h.NoConn()
+            if target == "array":
+                m.arr = n * E()(inp=m.a, out=nc(0))
+                m.arr2 = n * E()(inp=nc(1), out=nc(2))
+            elif target == "plain":
+                m.i = E()(inp=m.a, out=nc(0))
+                m.j = E()(inp=nc(1), out=nc(2))
+            else:
+                m.pr = h.Pair(E())(inp=h.AnonymousBundle(p=m.a, n=m.a), out=nc(0))
+            return m
+        return b
+    for target in ("array", "plain", "pair"):
+        for named in (False, True):
+            for width in (1, 2):
+                for n in ((2, 3) if target == "array" else (1,)):
+                    yield (f"noconn-on/{target}/{'named' if named else 'unnamed'}/w{width}/n{n}", mk(target, named, width, n))
+
+
 def name_pressure_designs():
     """designs whose declared names equal, or compose to, the names elaboration invents (the family of C05): the
     connectivity as written must survive the renaming"""
@@ -498,9 +526,9 @@ def run(ctx):
             ctx.checker_errors.append(f"array rule: only {len(obs)} obligations generated")
         ctx.discharge(obs, c_arrays.KEY + " [per-element loop body]", info)
     ctx.run_bounded(
-        "to_proto-vs-meaning", __import__("itertools").chain(design_family(ctx.tier, ctx.seed), edited_designs(), order_designs(), concat_designs(), bundle_ref_designs(), portref_slice_designs(), anon_and_pair_designs(), relative_index_designs()),
+        "to_proto-vs-meaning", __import__("itertools").chain(design_family(ctx.tier, ctx.seed), edited_designs(), order_designs(), concat_designs(), bundle_ref_designs(), portref_slice_designs(), anon_and_pair_designs(), relative_index_designs(), noconn_array_designs()),
         lambda c: check_design(c),
-        rule=RULE + "; plus 60 designs written in several steps (a port re-connected by each of the five operations) and 40 declaration orders of a reference chain ending on slices / concatenations of a driver's ports; every concatenation of two 1-3 bit pieces of a 6-bit bus and every three-piece cut of it in every order (285 designs); references to nested bundle members whose names recur at other levels (12); slices of a port REFERENCE for 10 kinds of referent (incl. bundle members) x every index / slice with steps +-1, +-2, also through an enclosing concatenation (~1300); end-relative indices into buses whose parts were resized after a width query, and into same-named signals of different widths in several modules of one design (~800)", bound="depth<=3, widths<=4 (8 thorough), <=4 (6) instances per module",
+        rule=RULE + "; plus 60 designs written in several steps (a port re-connected by each of the five operations) and 40 declaration orders of a reference chain ending on slices / concatenations of a driver's ports; every concatenation of two 1-3 bit pieces of a 6-bit bus and every three-piece cut of it in every order (285 designs); references to nested bundle members whose names recur at other levels (12); slices of a port REFERENCE for 10 kinds of referent (incl. bundle members) x every index / slice with steps +-1, +-2, also through an enclosing concatenation (~1300); end-relative indices into buses whose parts were resized after a width query, and into same-named signals of different widths in several modules of one design (~800); named and unnamed no-connects on array, pair and plain instance ports (16)", bound="depth<=3, widths<=4 (8 thorough), <=4 (6) instances per module",
         key_of=lambda c: c[0], nontrivial=lambda c: nontrivial(c[0]))
     ctx.run_bounded("to_proto-vs-meaning under name pressure", name_pressure_designs(), check_named,
                     rule="the designs of C05's adversarial-name family (declared names equal to invented ones in both "
@@ -515,7 +543,7 @@ def replay(payload):
     want = (payload.get("input") or {}).get("design")
     if want:
         for desc, b in list(edited_designs()) + list(order_designs()) + list(concat_designs()) + list(bundle_ref_designs()) + \
-                list(portref_slice_designs()) + list(anon_and_pair_designs()) + list(relative_index_designs()):
+                list(portref_slice_designs()) + list(anon_and_pair_designs()) + list(relative_index_designs()) + list(noconn_array_designs()):
             if desc == want:
                 r = check_design((desc, b))
                 print("replay:", r)
